@@ -11,9 +11,9 @@ package consensus
 //                       timeout not fired (a node waiting for genesis time); a fresh node per sequence
 //   nh_commit           RoundStepNewHeight after a commit (LastCommit present)
 //   later               in round 0 with a complete proposal and its own prevote out
-// After EVERY sequence the node carries on: the NewHeight timeout (if still pending), one FAILED round (nil
-// prevotes / precommits of two other validators, prevote-wait and precommit-wait timeouts -> round 1), then a
-// COMMITTED height (proposal of round 1, prevotes and precommits of the three others).  "progress" in the End
+// After EVERY sequence the node carries on: the NewHeight timeout (if still pending), two FAILED rounds (nil
+// prevotes / precommits of two other validators, prevote-wait and precommit-wait timeouts -> round 1 -> round 2),
+// then a COMMITTED height (proposal of round 2, prevotes and precommits of the three others).  "progress" in the End
 // line says whether that worked.  The remote
 // peer is a second real switch; for every sequence it opens a NEW connection (new PeerState; the node's
 // Reactor.AddPeer starts gossipDataRoutine, gossipVotesRoutine and queryMaj23Routine for it with bare
@@ -82,7 +82,9 @@ func c17SeqBits(size int) tmbits.BitArray {
 }
 
 // concrete instance of an abstract message of TMPeerGossip!HostileMsgs
-func c17SeqBuild(c c17ConsCtx, initial int64, rel c17SeqMsg) (byte, []byte, bool) {
+var c17NonVal = types.NewMockPV()
+
+func c17SeqBuild(c c17ConsCtx, initial int64, chainID string, rel c17SeqMsg) (byte, []byte, bool) {
 	m := rel
 	m.H = c.H + rel.H - 1 // heights of the model are relative to the node's height (NodeH = 1)
 	foreignPSH := tmproto.PartSetHeader{Total: uint32(m.Size), Hash: c17Hash(6)}
@@ -117,6 +119,14 @@ func c17SeqBuild(c c17ConsCtx, initial int64, rel c17SeqMsg) (byte, []byte, bool
 	case "Vote":
 		v := c.vote()
 		v.Height, v.Round, v.Type, v.ValidatorIndex = m.H, m.R, tmproto.SignedMsgType(m.T), m.Idx
+		if m.Hdr == "nonval" && m.H >= 0 && m.R >= 0 {
+			// a VALID signature of a key that is not in the validator set
+			pk, _ := c17NonVal.GetPubKey()
+			v.ValidatorAddress = pk.Address()
+			if err := c17NonVal.SignVote(chainID, v); err != nil {
+				panic(err)
+			}
+		}
 		return VoteChannel, c17Wrap(&tmcons.Vote{Vote: v}), true
 	case "Maj23":
 		return StateChannel, c17Wrap(&tmcons.VoteSetMaj23{Height: m.H, Round: m.R, Type: tmproto.SignedMsgType(m.T), BlockID: c.BID}), true
@@ -227,15 +237,30 @@ func (ctl *c17Ctl) where() string {
 	return fmt.Sprintf("%d/%d/%v", rs.Height, rs.Round, rs.Step)
 }
 
+func (ctl *c17Ctl) halted() bool {
+	select {
+	case <-ctl.cs.done: // receiveRoutine is gone ("CONSENSUS FAILURE!!!" or a stop): nothing will ever happen
+		return true
+	default:
+		return false
+	}
+}
+
 func (ctl *c17Ctl) wait(cond func(rs *cstypes.RoundState) bool) bool {
-	return ctl.env.waitFor(func() bool {
+	ok := false
+	ctl.env.waitFor(func() bool {
+		if ctl.halted() {
+			return true
+		}
 		rs := ctl.rs()
-		return rs != nil && cond(rs)
+		ok = rs != nil && cond(rs)
+		return ok
 	}, 8*time.Second)
+	return ok
 }
 
 func (ctl *c17Ctl) fireWhen(h int64, r int32, step cstypes.RoundStepType) bool {
-	if !ctl.env.waitFor(func() bool { return ctl.tick.scheduled(h, r, step) }, 8*time.Second) {
+	if !ctl.env.waitFor(func() bool { return ctl.halted() || ctl.tick.scheduled(h, r, step) }, 8*time.Second) || ctl.halted() {
 		return false
 	}
 	ctl.tick.fire()
@@ -344,7 +369,7 @@ func (ctl *c17Ctl) carryOn() string {
 	for _, f := range []struct {
 		name string
 		f    func() string
-	}{{"start", ctl.startHeight}, {"failed round", ctl.failRound}, {"commit", ctl.commitHeight}} {
+	}{{"start", ctl.startHeight}, {"failed round", ctl.failRound}, {"second failed round", ctl.failRound}, {"commit", ctl.commitHeight}} {
 		var r string
 		if !c17WithTimeout(40*time.Second, func() { r = f.f() }) {
 			return f.name + ": hangs"
@@ -486,7 +511,7 @@ func TestVerifC17Seq(t *testing.T) {
 			row := map[string]interface{}{"ev": "Msg", "run": run, "i": i + 1, "m": m, "sent": false, "barrier": "n/a",
 				"stopped": true, "panic_caught": 0}
 			if env.node().Peers().Has(id) {
-				ch, b, ok := c17SeqBuild(c, ctl.initial, m)
+				ch, b, ok := c17SeqBuild(c, ctl.initial, ctl.cs.state.ChainID, m)
 				if !ok {
 					panic(fmt.Sprintf("c17: no builder for %+v", m))
 				}
